@@ -80,3 +80,13 @@ package lamport
 //@   props C05 C06
 //@   requires pc != nil
 //@   check [unparsable-file-is-a-missing-clock] n != 1 ==> result == ErrClockNotExist
+
+// Opening or creating a persisted clock touches the clock's file and a new clock object only.
+//@ func NewPersistedClock
+//@   trusted
+//@   modifies fileValue
+//@   ensures result1 == nil ==> result != nil && fresh(result)
+//@ func LoadPersistedClock
+//@   trusted
+//@   modifies fileValue
+//@   ensures result1 == nil ==> result != nil && fresh(result)
